@@ -72,13 +72,15 @@ enum K {
     Plain(u16, String),
     PcRel { base: u16, bits: u32, text: String, target: String },
     External(String),
+    /// no statement at all: labels standing right before `.end` (address one past the block's last word)
+    LabelOnly,
 }
 impl K {
     fn size(&self) -> u16 {
         match self {
             K::Blkw(n) => *n,
             K::Stringz(s) => s.len() as u16 + 1,
-            K::External(_) => 0,
+            K::External(_) | K::LabelOnly => 0,
             _ => 1,
         }
     }
@@ -239,8 +241,13 @@ pub fn gen_file(r: &mut Rng, o: &FileOpts) -> GenFile {
             }
             sts.push(St { labels, k });
         }
-        if sts.is_empty() {
+        if sts.is_empty() && *n > 0 {
             sts.push(St { labels: vec![], k: K::FillConst(r.u16()) });
+        }
+        // labels right before `.end`; a block with no statements may consist of such a label only, or of nothing
+        if (*n > 0 && r.chance(1, 6)) || (*n == 0 && r.bool()) {
+            sts.push(St { labels: vec![format!("T{}_{}", local_n, o.id)], k: K::LabelOnly });
+            local_n += 1;
         }
         if let Some((hb, hn)) = o.huge {
             if hb == blocks.len() && room - hn as i64 >= 0 {
@@ -260,8 +267,14 @@ pub fn gen_file(r: &mut Rng, o: &FileOpts) -> GenFile {
                 (0, 0)
             } else {
                 let b = r.below(blocks.len() as u64) as usize;
+                if blocks[b].1.is_empty() {
+                    blocks[b].1.push(St { labels: vec![], k: K::LabelOnly });
+                }
                 (b, r.below(blocks[b].1.len() as u64) as usize)
             };
+            if blocks[b].1.is_empty() {
+                blocks[b].1.push(St { labels: vec![], k: K::LabelOnly });
+            }
             let sp = recase(r, name, 2);
             blocks[b].1[i].labels.push(sp);
         }
@@ -438,6 +451,12 @@ pub fn gen_file(r: &mut Rng, o: &FileOpts) -> GenFile {
                     prefix.push_str(&format!("{lb}{colon} "));
                 }
             }
+            if matches!(st.k, K::LabelOnly) {
+                if !prefix.trim().is_empty() {
+                    push_line(&mut text, &mut line_no, prefix.trim_end());
+                }
+                continue;
+            }
             let body = match &st.k {
                 K::FillConst(v) => {
                     obj.image.insert(a, Some(*v));
@@ -482,7 +501,7 @@ pub fn gen_file(r: &mut Rng, o: &FileOpts) -> GenFile {
                     see_label(target, &mut spelling);
                     format!("{} {}", recase(r, mn, mode), target)
                 }
-                K::External(_) => unreachable!(),
+                K::External(_) | K::LabelOnly => unreachable!(),
             };
             let indent = if prefix.is_empty() { "    " } else { "" };
             let tail = if r.chance(1, 4) { format!("  {}", comment(r, o.exotic)) } else { String::new() };
